@@ -19,6 +19,8 @@ theorem runOps_fold {σ : Type} (g : σ → Ev → σ) (Inv : σ → Prop)
     (hit : ∀ s u r, Inv s → g s (.it u r) = s)
     (hff : ∀ s a t x, Inv s → g s (.force a t x false) = s)
     (hpair : ∀ s a t x, Inv s → g (g s (.force a t x true)) (.ecmd t x) = s)
+    (herr : ∀ s u, Inv s → g s (.err u) = s)
+    (hexec : ∀ s u r, Inv s → g s (.exec u r) = s)
     (sc : Scripts) (f : Nat) (w : World) (me : Nat) (ops : List Op) (s : σ) (hs : Inv s) :
     (runOps sc f w me ops).2.foldl g s = s := by
   induction f generalizing w me ops with
@@ -28,8 +30,10 @@ theorem runOps_fold {σ : Type} (g : σ → Ev → σ) (Inv : σ → Prop)
     | nil => simp [runOps]
     | cons op rest =>
       have hop : ∀ (w1 : World) (e1 : List Ev), e1.foldl g s = s →
-          (if w1.alive me then ((runOps sc f w1 me rest).1, e1 ++ (runOps sc f w1 me rest).2) else (w1, e1)).2.foldl g s = s := by
+          (if w1.thrown then (w1, e1) else if w1.alive me then ((runOps sc f w1 me rest).1, e1 ++ (runOps sc f w1 me rest).2) else (w1, e1)).2.foldl g s = s := by
         intro w1 e1 he
+        split
+        · exact he
         split
         · simp only [List.foldl_append, he]; exact ih w1 me rest
         · exact he
@@ -46,6 +50,8 @@ theorem runOps_fold {σ : Type} (g : σ → Ev → σ) (Inv : σ → Prop)
         · apply hop; simp [hff _ _ _ _ hs]
       | gc => apply hop; simp [hgc _ _ _ hs]
       | it => apply hop; simp [hit _ _ _ hs]
+      | err => apply hop; simp [herr _ _ hs]
+      | exec => apply hop; simp [hexec _ _ _ hs]
 
 /-- shape of the events of one process_user_command call -/
 theorem puc_events (sc : Scripts) (w : World) :
@@ -70,7 +76,7 @@ theorem struct_script (s : SState) : (∀ a t ok, structStep s (.kick a t ok) = 
 theorem struct_runOps (sc : Scripts) (f : Nat) (w : World) (me : Nat) (ops : List Op) (s : SState) :
     (runOps sc f w me ops).2.foldl structStep s = s :=
   runOps_fold structStep (fun _ => True) (fun _ _ _ _ _ => rfl) (fun _ _ _ _ _ => rfl) (fun _ _ _ _ => rfl)
-    (fun _ _ _ _ => rfl) (fun _ _ _ _ _ => rfl) (fun _ _ _ _ _ => rfl) sc f w me ops s trivial
+    (fun _ _ _ _ => rfl) (fun _ _ _ _ _ => rfl) (fun _ _ _ _ _ => rfl) (fun _ _ _ => rfl) (fun _ _ _ _ => rfl) sc f w me ops s trivial
 
 /-- inside a cycle the command loop adds no violation: whoever is in `served` holds no turn any more -/
 theorem struct_cmdLoop (sc : Scripts) (k : Nat) (w : World) (hs : Safe w) (s : SState) (n : Nat) (hc : s.cyc = some n)
@@ -135,32 +141,40 @@ theorem struct_cycle (sc : Scripts) (w : World) (hs : Safe w) :
   simp only [Bool.false_eq_true, if_false, List.foldl_append, List.foldl_cons, List.foldl_nil]
   have hio : ∀ s : SState, (processIO { w with cycle := w.cycle + 1, users := grantAll w.users w.slots }).2.foldl structStep s = s := by
     intro s; unfold processIO; dsimp only; split <;> rfl
-  have hb : structStep (structStep {} (Ev.begin (w.cycle + 1))) (Ev.poll (w.cycle + 1) (!hasPending w)) =
+  have hb : structStep (structStep {} (Ev.begin (w.cycle + 1))) (Ev.poll (w.cycle + 1) (pollBlocks (hasPending w))) =
       { cyc := some (w.cycle + 1), served := [], bad := [] } := rfl
   rw [hb, hio]
   obtain ⟨c1, c2⟩ := struct_cmdLoop sc (NV.Gen.C12.loopCalls (connectedUsers w) w.maxUsers) (cmdPhaseStart w) h1
     { cyc := some (w.cycle + 1), served := [], bad := [] } (w.cycle + 1) rfl (by intro u hu; cases hu)
   unfold cmdPhaseStart at c1 c2
-  simp only [structStep, c1, c2]
-  simp
+  split
+  · simp only [List.foldl_cons, List.foldl_nil, structStep, c1, c2]; simp
+  · simp only [List.foldl_cons, List.foldl_nil, structStep, c1, c2]; simp
+
+/-- the same for all iterations between two hook calls (aborted ones end with `abort n`, which closes cycle `n`) -/
+theorem struct_run (sc : Scripts) (w : World) (hq : Quiet w) :
+    (cycleRun sc (weight w + 1) w).2.foldl structStep {} = {} :=
+  (cycleRun_fold sc structStep (fun s _ => s = {}) (fun s w hs hq => by subst hs; exact struct_cycle sc w hq.1)
+    (fun _ _ h => h) (weight w + 1) w {} rfl hq (by omega)).1
 
 /-- **trace theorem 1**: for every history and every script oracle the structure oracle accepts the trace of the
     model: never a second buffered command of one user inside a cycle (`twice`), no command outside a cycle, no crash,
     cycles properly bracketed. -/
 theorem judgeStruct_events (sc : Scripts) (cs : List Cmd) : judgeStruct (events sc cs) = [] := by
-  have key : ∀ (cs : List Cmd) (w : World), Safe w → (run sc w cs).2.foldl structStep {} = {} := by
+  have key : ∀ (cs : List Cmd) (w : World), Quiet w → (run sc w cs).2.foldl structStep {} = {} := by
     intro cs
     induction cs with
     | nil => intro w _; rfl
     | cons c r ih =>
-      intro w hs
-      have hnext := cursor_in_bounds sc w c hs
+      intro w hq
+      have hs := hq.1
+      have hnext := cursor_in_bounds sc w c hq
       simp only [run, List.foldl_append]
       have hstep : (step sc w c).2.foldl structStep {} = {} := by
         cases c with
         | cycle =>
-          have : step sc w .cycle = cycleStep sc w := by simp [step, hs.1]
-          rw [this]; exact struct_cycle sc w hs
+          have : step sc w .cycle = cycleRun sc (weight w + 1) w := by simp [step, hs.1]
+          rw [this]; exact struct_run sc w hq
         | conn => simp [step, hs.1, structStep]
         | send u d => simp only [step, hs.1, Bool.false_eq_true, if_false]; split <;> rfl
         | close u =>
@@ -171,7 +185,7 @@ theorem judgeStruct_events (sc : Scripts) (cs : List Cmd) : judgeStruct (events 
       rw [hstep]
       exact ih _ hnext
   unfold judgeStruct events
-  rw [key cs {} ⟨rfl, Or.inr ⟨rfl, rfl⟩⟩]
+  rw [key cs {} quiet_init]
   rfl
 
 /-! ### the command() oracle -/
@@ -198,6 +212,8 @@ theorem efun_runOps (sc : Scripts) (f : Nat) (w : World) (me : Nat) (ops : List 
     simp only at h
     subst h
     simp [efunStep]
+  · intro s u h; exact efun_neutral s h _ (by intro _ _ _ hh; cases hh)
+  · intro s u r h; exact efun_neutral s h _ (by intro _ _ _ hh; cases hh)
   · exact hs
 
 theorem efun_cmdLoop (sc : Scripts) (k : Nat) (w : World) (s : EState) (hs : s.expect = none) :
@@ -237,7 +253,26 @@ theorem efun_cycle (sc : Scripts) (w : World) (s : EState) (hs : s.expect = none
   rw [hio, efun_cmdLoop sc _ _ s hs]
   split
   · simp only [List.foldl_cons, List.foldl_nil]; exact efun_neutral s hs _ (by intro _ _ _ hh; cases hh)
-  · simp only [List.foldl_cons, List.foldl_nil]; exact efun_neutral s hs _ (by intro _ _ _ hh; cases hh)
+  · split
+    · simp only [List.foldl_cons, List.foldl_nil]; exact efun_neutral s hs _ (by intro _ _ _ hh; cases hh)
+    · simp only [List.foldl_cons, List.foldl_nil]; exact efun_neutral s hs _ (by intro _ _ _ hh; cases hh)
+
+theorem efun_run (sc : Scripts) (f : Nat) (w : World) (s : EState) (hs : s.expect = none) :
+    (cycleRun sc f w).2.foldl efunStep s = s := by
+  induction f generalizing w with
+  | zero =>
+    simp only [cycleRun, List.foldl_cons, List.foldl_nil]
+    exact efun_neutral s hs _ (by intro _ _ _ hh; cases hh)
+  | succ f ih =>
+    have h1 := efun_cycle sc w s hs
+    unfold cycleRun
+    cases hc : cycleStep sc w with
+    | mk w1 e1 =>
+      rw [hc] at h1
+      dsimp only at h1 ⊢
+      split
+      · dsimp only; rw [List.foldl_append, h1]; exact ih _
+      · exact h1
 
 /-- **trace theorem 2** (`command_efun_unlimited` at trace level): for every history and every script oracle, every
     `command()` requested on a live object is the very next event of the trace - no turn, no cycle limit. -/
@@ -254,7 +289,7 @@ theorem judgeEfun_events (sc : Scripts) (cs : List Cmd) : judgeEfun (events sc c
         split
         · rfl
         · cases c with
-          | cycle => exact efun_cycle sc w {} rfl
+          | cycle => exact efun_run sc _ w {} rfl
           | conn => rfl
           | send u d => dsimp only; split <;> rfl
           | close u =>
@@ -271,7 +306,7 @@ theorem judgeEfun_events (sc : Scripts) (cs : List Cmd) : judgeEfun (events sc c
 /-- the part of the top theorem proved here: the clause oracles for `twice` / `outside` / `crash` / `malformed`
     and for `efun` accept every trace of the model -/
 theorem judgeEv_events_eq_data (sc : Scripts) (cs : List Cmd) :
-    judgeEv (events sc cs) = judgeFifo (events sc cs) ++ judgeLive (events sc cs) := by
+    judgeEv (events sc cs) = judgeFifo (events sc cs) ++ judgeLive (events sc cs) ++ judgeOrder (events sc cs) := by
   unfold judgeEv
   rw [judgeStruct_events, judgeEfun_events]
   rfl
